@@ -846,4 +846,6 @@ def run(chk: Check) -> None:
     d8_exceptions_are_constructible(chk, cl)
     d9_expected_character_is_unescaped(chk)
     d10_membership_in_real_containers(chk, cl)
+    from rules.shared import match_result_deref_rule
+    match_result_deref_rule(chk, "C14-D11", cl, floor=20)
     chk.notes.append("closure: {} functions".format(len(cl)))
